@@ -96,6 +96,20 @@ def retype(rnd, W):
     return W
 
 
+NO_RETYPE = ('nbs_bct', 'generative_model', 'evaluate_generative_model', 'retrieve_shortest_path', 'cycprob')
+
+
+def relayout(rnd, W):
+    if not (isinstance(W, np.ndarray) and W.ndim == 2 and W.shape[0] == W.shape[1] and W.dtype == np.float64):
+        return W
+    r = rnd.random()
+    if r < 0.15:
+        return np.asfortranarray(W)
+    if r < 0.2:
+        return W.T.copy().T
+    return W
+
+
 def labels(rnd, n):
     k = rnd.randint(2, 3)
     base = [rnd.randrange(k) for _ in range(n)]
@@ -122,7 +136,12 @@ def synth(fname, rnd):
     kwargs = {}
     ov = OVERRIDES.get(fname)
     if ov is not None:
-        return ov(rnd, n)
+        a, k = ov(rnd, n)
+        if fname not in NO_RETYPE:
+            # memory layout of square float64 matrices is varied here too (dtype is left to the override: many of these
+            # functions need a particular one)
+            a = [relayout(rnd, x) for x in a]
+        return a, k
     for pname, par in sig.parameters.items():
         if pname == 'seed':
             continue
